@@ -665,10 +665,14 @@ def slices_part(chk, exes, gen_results, thorough, sd):
                                             "reference_only_validated": len(plan[g][1])} for g in plan}
     chk.cov["elem_sizes"] = sizes
     for gname in built:
-        for tr in built[gname][0][:1]:
-            i = built[gname][1].get(tr["id"])
-            if i:
-                chk.sample({"validated_slice_trace": show_script(scripts[i[0]][1]), "log": i[1][:300]})
+        traces, meta, _ = built[gname]
+        for tr in traces:
+            k = meta.get(tr["id"])
+            if k and scripts[k[0]][2] == "enum" and tl[gname][1].get(tr["id"]) is None and \
+                    any(e["op"]["k"] in ("app", "apps", "copy") and not e["out"]["p"] for e in tr["ev"]):
+                chk.sample({"validated_slice_trace": show_script(scripts[k[0]][1]), "elem_sizes": sorted(set(
+                    es for _, es in groups[gname][k])), "log": k[1][:300]})
+                break
 
 
 # --------------------------------------------------------------------------- strings
